@@ -275,6 +275,11 @@ def ladder(gm: GrammarModel, root: str = 'expression') -> list[Level]:
 					levels.append(Level(cur, alias or cur, 'binary', op_tokens(nt_name(ivs[0])), names[0], depth))
 					nxt = names[0]
 					continue
+				# Y (op X)*: the right operand is the level itself — the chain nests to the right instead of staying flat (reported by ladder-shape)
+				if len(ivs) == 2 and nt_name(ivs[0]) and nt_name(ivs[1]) == cur:
+					levels.append(Level(cur, alias or cur, 'binary', op_tokens(nt_name(ivs[0])), cur, depth))
+					nxt = names[0]
+					continue
 			# op X  (prefix, recursive)
 			if len(vs) == 2 and names[0] and names[1] == cur and (names[0].startswith('_') or names[0].endswith('_op')):
 				levels.append(Level(cur, alias or cur, 'prefix', op_tokens(names[0]), cur, depth))
